@@ -242,7 +242,7 @@ func actionsDeep(stmts []ast.Stmt, prefix string) []string {
 }
 
 // extraGens: further Gen files, added as properties are built.
-func extraGens(root, st *pkg) []*genFile { return []*genFile{genRecv(root), genSession(root), genAuth(root, st), genComponent(root, st), genKeepalive(root), genSupervisor(root), genC01(st)} }
+func extraGens(root, st *pkg) []*genFile { return []*genFile{genRecv(root), genSession(root), genAuth(root, st), genComponent(root, st), genKeepalive(root), genSupervisor(root), genC01(st), genRouter(root)} }
 
 // assignsTo lists, in source order, the right-hand sides assigned to the selector `sel` (e.g. "t.isSecure") in fn,
 // interleaved with the calls named in `marks` (so that the order "Handshake, isSecure=false, VerifyHostname,
@@ -346,4 +346,59 @@ func dialErrArgs(fd *ast.FuncDecl) []string {
 		return true
 	})
 	return out
+}
+
+// makeChanCaps lists the capacity arguments of `make(chan T, n)` calls in fn ("0" for unbuffered).
+func makeChanCaps(fd *ast.FuncDecl) []string {
+	var out []string
+	if fd == nil {
+		return []string{"<missing function>"}
+	}
+	ast.Inspect(fd.Body, func(n ast.Node) bool {
+		c, ok := n.(*ast.CallExpr)
+		if !ok || exprString(c.Fun) != "make" || len(c.Args) == 0 {
+			return true
+		}
+		if _, isChan := c.Args[0].(*ast.ChanType); isChan {
+			if len(c.Args) >= 2 {
+				out = append(out, exprString(c.Args[1]))
+			} else {
+				out = append(out, "0")
+			}
+		}
+		return true
+	})
+	return out
+}
+
+// ifConds lists the conditions of the if statements of fn, in source order.
+func ifConds(fd *ast.FuncDecl) []string {
+	var out []string
+	if fd == nil {
+		return []string{"<missing function>"}
+	}
+	ast.Inspect(fd.Body, func(n ast.Node) bool {
+		if _, ok := n.(*ast.FuncLit); ok {
+			return false
+		}
+		if i, ok := n.(*ast.IfStmt); ok {
+			out = append(out, exprString(i.Cond))
+		}
+		return true
+	})
+	return out
+}
+
+func genRouter(root *pkg) *genFile {
+	g := newGen("RouterSkeleton")
+	g.def("route", "List String", leanStrList(fnActions(root.fn("Router", "route"))), "flattened actions of Router.route")
+	g.def("routeConds", "List String", leanStrList(ifConds(root.fn("Router", "route"))), "if conditions of Router.route in source order")
+	g.def("sendIQ", "List String", leanStrList(fnActions(root.fn("Router", "sendIQ"))), "flattened actions of Router.sendIQ (register, write, clean-up)")
+	g.def("sendIQFuncLits", "List (List String)", leanStrListList(funcLits(root.fn("Router", "sendIQ"))), "goroutine started by Router.sendIQ")
+	g.def("removeRoute", "List String", leanStrList(fnActions(root.fn("Router", "removeIQResultRoute"))), "flattened actions of Router.removeIQResultRoute")
+	g.def("removeRouteConds", "List String", leanStrList(ifConds(root.fn("Router", "removeIQResultRoute"))), "if conditions of removeIQResultRoute")
+	g.def("resultChanCap", "List String", leanStrList(makeChanCaps(root.fn("", "NewIQResultRoute"))), "capacity of the result channel made by NewIQResultRoute")
+	g.def("clientSendIQ", "List String", leanStrList(fnActions(root.fn("Client", "SendIQ"))), "flattened actions of Client.SendIQ")
+	g.def("componentSendIQ", "List String", leanStrList(fnActions(root.fn("Component", "SendIQ"))), "flattened actions of Component.SendIQ")
+	return g
 }
